@@ -33,7 +33,7 @@ func (p probeSched) Next(t time.Time) time.Time {
 
 func TestCronCallbackPoints(t *testing.T) {
 	sec := vk.Sec("CronCallbackPoints")
-	for _, inject := range []string{"remove-other", "stop", "remove-self", "entries", "stop+remove-other", "entries+remove-other"} {
+	for _, inject := range []string{"remove-other", "stop", "remove-self", "entries", "stop+remove-other", "entries+remove-other", "entries+stop", "stop+entries"} {
 		for _, others := range []int{1, 3} {
 			for nth := 2; nth <= 4; nth++ { // (the first Next call of an entry is the one made when the scheduler starts)
 				name := fmt.Sprintf("cron.callbackpoint{inject=%s otherEntries=%d atNextCall=%d}", inject, others, nth)
@@ -64,7 +64,9 @@ func runCronCallbackPoint(t *testing.T, name, inject string, others, nth int) er
 		var calls atomic.Int32
 		var returned atomic.Bool
 		snapshot := map[int]int{}
-		var iwg sync.WaitGroup
+		var iwg, pairWG sync.WaitGroup
+		var pairDone atomic.Int32
+		var pairStarted atomic.Bool
 		victim := 1
 		probe := probeSched{period: time.Second, on: func() {
 			if int(calls.Add(1)) != nth {
@@ -75,6 +77,23 @@ func runCronCallbackPoint(t *testing.T, name, inject string, others, nth int) er
 			go func() {
 				defer iwg.Done()
 				switch inject {
+				case "entries+stop", "stop+entries":
+					// Entries and Stop both wait for the busy scheduler; whichever request the scheduler takes first
+					// when it is done with the wake-up, BOTH calls return (Entries never waits for a scheduler that is gone)
+					first, second := func() { _ = cr.Entries() }, func() { cr.Stop() }
+					if inject == "stop+entries" {
+						first, second = second, first
+					}
+					pairWG.Add(2)
+					go func() { defer pairWG.Done(); first(); pairDone.Add(1) }()
+					for i := 0; i < 200; i++ {
+						runtime.Gosched()
+					}
+					go func() { defer pairWG.Done(); second(); pairDone.Add(1) }()
+					for i := 0; i < 200; i++ {
+						runtime.Gosched()
+					}
+					pairStarted.Store(true)
 				case "stop+remove-other", "entries+remove-other":
 					// a first caller (Stop or Entries) is already waiting for the scheduler when Remove is called:
 					// whatever the first caller has changed by then, Remove's promise is the same
@@ -131,9 +150,18 @@ func runCronCallbackPoint(t *testing.T, name, inject string, others, nth int) er
 			fake.Step(time.Second)
 			synctest.Wait()
 		}
+		if pairStarted.Load() {
+			// the bubble is quiescent: the wake-up is long over
+			if n := pairDone.Load(); n != 2 {
+				errs.Failf("Entries and Stop were both called while the scheduler was inside a wake-up; the bubble is quiescent and only %d of the 2 calls have returned (a caller is waiting for a scheduler goroutine that has exited)", n)
+				cr.Start() // lets a stranded Entries finish so that the bubble can end
+				synctest.Wait()
+			}
+		}
 		iwg.Wait()
 		cr.Stop()
 		synctest.Wait()
+		pairWG.Wait()
 		mu.Lock()
 		defer mu.Unlock()
 		if snapshot[-1] == 1 {
